@@ -10,6 +10,7 @@ CONSTANTS
   Rfc0028 = FALSE
   NBlocks = 4
   TsSteps = {1, 3}
+  ForceT = FALSE
   Emit = FALSE
 INVARIANT ContextTxsValid
 INVARIANT PoolSound
